@@ -52,8 +52,10 @@ pub struct DictSpec {
 
 /// Two synthetic dictionaries with entropy tables that differ from the predefined ones.
 pub fn dict_specs() -> (DictSpec, DictSpec) {
-    let mut huf = vec![0u8; 97];
-    huf.extend_from_slice(&[3, 3, 2, 2, 1, 1, 1]); // 'a'..'g', implied weight 1 for 'h'
+    // symbols 0..3 (the literal alphabet of the spec-generated frames) and 'a'..'g' explicit, implied weight 2 for 'h'
+    let mut huf = vec![3u8, 2, 1, 1];
+    huf.resize(97, 0);
+    huf.extend_from_slice(&[4, 3, 3, 2, 2, 1, 1]);
     let mut of = crate::fsecodec::OF_DEF.to_vec();
     of.swap(0, 6);
     let mut ml = crate::fsecodec::ML_DEF.to_vec();
